@@ -400,7 +400,7 @@ def apply(doc, case_seed, i, gen):
                 t.eye = numpy.array([v(), v(), 9.0], dtype=numpy.float32)
                 t.interest = numpy.array([v(), v(), -1.0], dtype=numpy.float32)
         elif k == 'nodename' and nodes:
-            r.choice(nodes).name = r.choice(['renamed node', 'nn'])
+            r.choice(nodes).name = r.choice(['renamed_node', 'nn'])
         else:
             return None
         return 'attr:' + k
